@@ -582,6 +582,44 @@ def prop_result(case):
 # ------------------------------------------------------------------------------------------
 
 
+# ------------------------------------------------------------------------------------------
+# sub-check: long time axes (a value does not depend on which other points are on the axis)
+
+
+def long_axis_cases():
+    return st.tuples(gen.kernel_cases(), st.sampled_from([4097, 5000, 8193, 9000, 12289]), st.integers(0, 10**6)).map(
+        lambda t: {**t[0], "long_n": t[1], "pick_seed": t[2]})
+
+
+def prop_long_axis(case):
+    """Thousands of time points (beyond any block / buffer size an implementation may use): every row equals the row computed
+    for the same time point on a short axis that holds only a few of the points."""
+    t0, t1 = min(case["times"]), max(case["times"])
+    if not t1 > t0:
+        t0, t1 = t0 - 1.0, t0 + 1.0
+    n = int(case["long_n"])
+    times = np.linspace(t0, t1, n)
+    rng = np.random.default_rng([case["pick_seed"], n])
+    idx = sorted(set(rng.integers(0, n, 24).tolist()) | {i for i in (0, 1023, 1024, 2047, 2048, 4095, 4096, 4097, 8191, 8192, 8193, 12287, 12288, n - 1) if i < n})
+    long_case = {**case, "times": [float(v) for v in times]}
+    short_case = {**case, "times": [float(times[i]) for i in idx]}
+    long_case.pop("axis_repr", None)
+    short_case.pop("axis_repr", None)
+    _, _, labels_l, full = call_matrix(long_case, False, "long_axis.call")
+    _, _, labels_s, part = call_matrix(short_case, False, "long_axis.call_short")
+    check(labels_l == labels_s, "long_axis.labels", lambda: f"{labels_l} vs {labels_s}")
+    sel = full[..., idx, :]
+    check(sel.shape == part.shape, "long_axis.shape", lambda: f"{sel.shape} vs {part.shape}")
+    fin = np.isfinite(sel) & np.isfinite(part)
+    check(bool(np.array_equal(np.isfinite(sel), np.isfinite(part))), "long_axis.finite_pattern", "non-finite entries differ")
+    scale = max(float(np.abs(part[fin]).max()) if fin.any() else 0.0, 1e-300)
+    err = np.abs(np.where(fin, sel - part, 0.0))
+    worst_ = np.unravel_index(int(np.argmax(err)), err.shape)
+    check(float(err.max()) <= 1e-12 * scale, "long_axis.row_depends_on_other_points",
+          lambda: f"{n} points: row {idx[worst_[-2]]} (t={times[idx[worst_[-2]]]!r}) differs by {float(err.max()):.3e} (scale {scale:.3e}) from the same point on a {len(idx)}-point axis")
+    return {"nontrivial": True, "tags": sorted(common_tags(case)) + [f"points_{n}"]}
+
+
 PROPERTY = Property(
     id="C05",
     level="exploration",
@@ -599,6 +637,8 @@ PROPERTY = Property(
             doc="index-independent (multi-)Gaussian IRF: calculate_matrix == mpmath convolution @ A, normalise on/off"),
         Sub("index", prop=prop_index, strategy=lambda: with_axis_repr(gen.index_cases), budget={"quick": 600, "thorough": 60000},
             doc="shifted/dispersed IRF: matrix[i] == oracle at the effective centre/width of index i == plain-Gaussian twin"),
+        Sub("long_axis", prop=prop_long_axis, strategy=long_axis_cases, budget={"quick": 48, "thorough": 2000},
+            doc="time axes of 4097..12289 points: every row equals the row of the same time point on a short axis (no closed form needed)"),
         Sub("result", prop=prop_result, strategy=gen.result_cases, budget={"quick": 160, "thorough": 16000},
             doc="result variables matrix / irf / irf_center_location / irf_shift of a one-evaluation optimize()"),
     ],
